@@ -5,7 +5,8 @@
 //   deep <n> <kind>           decode a document nested n levels (0: closed, 1: closed then mismatched end tag, 2: unclosed)
 // tree tokens (preorder): E <hextag> <nattr> {<hexname> <hexval>} <nchildren> children... | T <hextext>
 // dump: element  E<hextag>[<hexname>=<hexval>,...]{<flag><child> ...}   text  T<hex>
-//       flag '+' iff child.parent() == containing element, '!' otherwise
+//       flag '+' iff child.parent() == containing element, '!' otherwise; the whole dump is prefixed with
+//       R+ iff the returned element's own parent() is a null object, R! otherwise
 #include "common.h"
 #include <asl/Xml.h>
 using namespace asl;
@@ -41,7 +42,9 @@ static void dump(const Xml& e, std::string& out)
 static std::string show(const Xml& e)
 {
 	if (!e) return "null";
-	std::string out;
+	// the returned element is a root: parent() must be a null object (calling it reads the raw pointer,
+	// so a dangling one is an ASan report)
+	std::string out = e.parent().isnull() ? "R+" : "R!";
 	dump(e, out);
 	return out;
 }
@@ -81,7 +84,7 @@ static bool build(const Toks& t, size_t& i, Xml& out)
 static std::string deepShow(const Xml& root)
 {
 	if (!root) return "deep null";
-	long long depth = 0, nodes = 0, bad = 0;
+	long long depth = 0, nodes = 0, bad = root.parent().isnull() ? 0 : 1;
 	std::vector<std::pair<Xml, long long> > work;
 	work.push_back(std::make_pair(root, 1LL));
 	while (!work.empty()) {
